@@ -59,6 +59,8 @@ def cases(tier, seed):
         yield dict(kind="closepull", i=i)
     for i in range(40 if tier == "quick" else 600):
         yield dict(kind="xclose", i=i)
+    for i in range(20 if tier == "quick" else 300):
+        yield dict(kind="slowinput", i=i)
 
 
 class Puller:
@@ -224,6 +226,13 @@ def run_case(case, ctx):
     # the whole sequence runs in one consumer thread (so that dispatch, pulls and close() happen in the same thread,
     # as in user code); this thread only watches it
     from vlib.scripted_backend import stacks
+    if case["kind"] == "slowinput":
+        t = threading.Thread(target=guard(run_slow_input, ctx), args=(case, ctx), daemon=True)
+        t.start()
+        t.join(120)
+        if t.is_alive():
+            ctx.violation("nontermination:consumer-blocked", f"slow-input scenario {case} still blocked after 120 s", dict(stack=stacks().get(t.ident, "")[-1500:]))
+        return
     if case["kind"] == "xclose":
         t = threading.Thread(target=guard(run_xclose, ctx), args=(case, ctx), daemon=True)
         t.start()
@@ -618,6 +627,72 @@ def run_hold(case, ctx, prefix=""):
                     ctx.violation(prefix + "not-exhausted", f"{what} generator gave {r} after all of its results; {cfg}", cfg)
         drain(be)
         ctx.sig((str(cfg), N1, N2, take_before, first_then))
+
+
+def run_slow_input(case, ctx):
+    """the INPUT is slow: a completion callback sits inside its pull of the next item (a gate of the check) when a result is
+    due - the consumer must get that result without waiting for the input to produce"""
+    from joblib import Parallel, delayed
+    from vlib.scripted_backend import ScriptedBackend, Src, Trace
+    rng = harness.rng_for(ctx.seed, ID, "slowinput", case["i"])
+    J, b = rng.choice([2, 3]), rng.choice([1, 1, 2])
+    mode = rng.choice(["generator", "generator_unordered"])
+    trace = Trace()
+    be = ScriptedBackend(trace=trace)
+    N = rng.choice([12, 20])
+    cfg = dict(J=J, b=b, mode=mode, N=N, scenario="slow-input")
+    in_gate, release = threading.Event(), threading.Event()
+    st = {"armed": False}
+
+    def gate(i):
+        if st["armed"] and not in_gate.is_set():
+            in_gate.set()
+            release.wait(30)
+
+    src = Src(N, lambda i: delayed(ident)(i, "slow"), trace, widen=0)
+    src.gate = gate
+    p = Parallel(n_jobs=J, backend=be, return_as=mode, batch_size=b, pre_dispatch="2*n_jobs")
+    ctx.evaluated()
+    ctx.count("calls")
+    try:
+        with warnings.catch_warnings():
+            warnings.simplefilter("ignore")
+            g = p(src)
+        if not be.wait_pending(1, timeout=10):
+            ctx.inconclusive("slow-input:nothing-pending", cfg)
+            return
+        st["armed"] = True
+        first = be.pending_snapshot()[0]
+        be.complete(first, thread=True, wait=False)      # registers its results, then pulls the next items: parked in the gate
+        if not in_gate.wait(10):
+            ctx.count("slow_input_gate_not_reached")
+            return
+        # the first batch has completed and is the first in submission order: its first result is due
+        pl = Puller(g)
+        pl.start()
+        r = pl.get(DUE_WAIT)
+        ctx.count("promptness_checks")
+        ctx.count("results_due_while_a_callback_pulls_from_a_slow_input")
+        if r is None:
+            release.set()
+            r2 = pl.get(20)
+            ctx.violation("due-result-not-delivered:while-a-callback-pulls-from-a-slow-input",
+                          f"result 0 had completed, yet next() blocked as long as the input iterable kept a completion callback waiting for its next item "
+                          f"(delivered {r2} once the input produced); {cfg}", cfg)
+        elif r[0] != "v" or r[1] != ("slow", 0):
+            ctx.violation("wrong-result", f"next() gave {r}; {cfg}", cfg)
+        ctx.sig(("slowinput", J, b, mode, N))
+    finally:
+        release.set()
+        try:
+            for _ in range(100):
+                futs = be.pending_snapshot() + be.late_snapshot()
+                if not futs:
+                    break
+                be.complete(futs[0], thread=True, wait=True, timeout=5)
+            g.close()
+        except BaseException:  # noqa
+            pass
 
 
 def run_xclose(case, ctx):
